@@ -24,6 +24,7 @@ ASSUME Out("keyed2k", Keyed2K)
 ASSUME Out("mergedocs", MergeDocs)
 ASSUME Out("mergedeep", MergeDeep)
 ASSUME Out("yamldocs", YamlDocs)
+ASSUME Out("deeparr", DeepArr)
 ASSUME Out("objptr", ObjPtr)
 ASSUME Out("ptrdeep", PtrDeep)
 =============================================================================
